@@ -40,7 +40,7 @@ theorem Plain.set {cells : List Cell} (hp : Plain cells) (i : Nat) (c0 c' : Cell
 /-- On a heap in which nothing chains, the recursive interpreter and the chain-stack walk do the same thing. -/
 theorem spec_eq_loop_plain : ∀ (fuel : Nat) (cells : List Cell) (tr : List Entry) (d : Nat), Plain cells →
     (match cells[d]? with | some c => c.callbacks.length | none => 0) < fuel →
-    Spec.run fuel (cells, tr) d =
+    Spec.run fuel [] (cells, tr) d =
       some ((loop { cells := cells, trace := tr, chain := [d] }).cells,
             (loop { cells := cells, trace := tr, chain := [d] }).trace) ∧
     Plain (loop { cells := cells, trace := tr, chain := [d] }).cells := by
@@ -50,6 +50,7 @@ theorem spec_eq_loop_plain : ∀ (fuel : Nat) (cells : List Cell) (tr : List Ent
   | succ fuel ih =>
     intro cells tr d hp hf
     rw [Spec.run]
+    simp only [List.contains_nil, Bool.false_eq_true, if_false]
     cases hcell : cells[d]? with
     | none =>
       have hs : stepConf { cells := cells, trace := tr, chain := [d] } = some { cells := cells, trace := tr, chain := [] } := by
